@@ -29,7 +29,46 @@ def gen(seed, idx, tier):
     return scn
 
 
+def check_frames(sim, h):
+    """Again on every recorded frame (what the writer was handed): the frame of step s > 0 holds
+    the currents of update s-1, whose boundary condition was I(t_{s-1}); frame 0 of an unseeded
+    run is the user-visible initial condition (zero currents) and is excluded."""
+    import numpy as np
+
+    from .. import build as B
+    from ..checkers import get_ctx
+
+    V = []
+    S = h.stages["S"]
+    if not h.frames or h.device is None:
+        return V
+    c = get_ctx(sim)
+    rm = c.rm
+    for fr in h.frames:
+        s = fr["step"]
+        if not fr["completed"] or fr["stage"] != "S" or s == 0 or s - 1 >= len(S):
+            continue
+        J = np.asarray(fr["data"]["supercurrent"]) + np.asarray(fr["data"]["normal_current"])
+        flow = rm.net_outflow(J)
+        I = B.current_at(sim.scn["drive"].get("currents"), S[s - 1]["time"])
+        expected = np.zeros(rm.n)
+        for name, t in c.shares.items():
+            tot = c.J_scale * I.get(name, 0.0) / c.xi
+            if t["length"] > 0:
+                for site, share in t["share"].items():
+                    expected[site] += tot * share / t["length"]
+        scale = 1.0 + float(np.max(np.abs(J), initial=0.0)) * float(rm.s_len.max())
+        resid = np.abs(flow - expected)
+        if np.any(resid > 1e-9 * scale):
+            i = int(np.argmax(resid))
+            V.append(Violation("frame-continuity", f"recorded frame of step {s}: net outflow of cell {i} is {flow[i]:.6g}, injected share {expected[i]:.6g}", step=s, n_terminals=len(c.shares)))
+            break
+    return V
+
+
 def post(sim, h):
+    if not h.outcome.startswith("rejected"):
+        return check_frames(sim, h)
     if h.outcome.startswith("rejected") and h.exc[0] == "ValueError" and "sum of all terminal currents" in h.exc[1]:
         cur = sim.scn["drive"]["currents"]
         return [
